@@ -217,6 +217,10 @@ def run_schedule(units, palette, geo, start, times, nd, tmp, via="ctor", kind="c
             px = ds["pixel"]
             return (np.asarray(px.transpose("readout_time", "y", "x").values, dtype=float),
                     [float(t) for t in px["readout_time"].values])
+    elif via == "twin":
+        # the SAME detector just went through an exposure with the same times in the other readout mode
+        pyxel.run_mode(mk.exposure(times, not nd, start), det, mk.pipeline(groups), with_inherited_coords=True)
+        exp = mk.exposure(times, nd, start)
     elif via == "ctor" or len(times) < 2:
         exp = mk.exposure(times, nd, start)
     else:
@@ -288,7 +292,7 @@ def run_case(case):
                     try:
                         # the way the schedule is handed over rotates with the partition (all three must be equivalent)
                         cube, labels = run_schedule(units, palette, geo, start, times, mode == "nd", tmp,
-                                                    via=("ctor", "setter", "replace", "start_setter", "deprecated")[mask % 5],
+                                                    via=("ctor", "setter", "replace", "start_setter", "deprecated", "twin")[mask % 6],
                                                     kind=case.get("det", "ccd"))
                         runs += 1
                     except Exception as e:  # noqa: BLE001
